@@ -39,6 +39,11 @@ type scriptedRT struct {
 }
 
 func (rt *scriptedRT) RoundTrip(req *http.Request) (*http.Response, error) {
+	// like net/http's transport, nothing is sent on a cancelled context (the retry loop's
+	// select may pick its timer when a short pause and the cancellation are both ready)
+	if err := req.Context().Err(); err != nil {
+		return nil, err
+	}
 	got := "n"
 	if req.Body != nil && req.Body != http.NoBody {
 		b, _ := io.ReadAll(req.Body)
